@@ -306,6 +306,24 @@ def c_option_flag(rng, W):
             'probe': doc}
 
 
+def c_shared_options(rng, W):
+    # a caller that builds its Options once (values obtained with the
+    # library's own readers) and passes the object to every call
+    a, b = W.word(), W.word()
+    files = {'repl.txt': {'text': '# phrases\n\nso dass & sodass\n%s & qersetztz\n' % a},
+             'defs.tex': {'text': '\\newcommand{\\fromdefs}[1]{<#1>}\n'}}
+    o = {'_share': True}
+    kind = rng.choice(['repl', 'defs', 'both', 'plain'])
+    if kind in ('repl', 'both'):
+        o['_repl_file'] = 'repl.txt'
+    if kind in ('defs', 'both'):
+        o['_defs_file'] = 'defs.tex'
+    doc = 'Er sagt, so dass %s es \\fromdefs{%s} sieht.\n' % (a, b)
+    return {'name': 'options_object:' + kind, 'files': files,
+            'pol': doc, 'pol_opts': o, 'probe': doc, 'probe_opts': dict(o),
+            'same_base': True}
+
+
 def c_package_zoo(rng, W):
     # macro / environment objects of pre-loaded packages must not carry what
     # an option of an earlier call did to them (extraction rewrites every
@@ -368,7 +386,8 @@ def c_recovery(rng, W):
 
 CARRIERS = [c_newcommand, c_newcommand, c_renewcommand, c_newtheorem, c_package,
             c_package, c_cleveref, c_docclass, c_language, c_language,
-            c_lang_option, c_ienc, c_xspace, c_package_zoo, c_file_rewritten, c_file_rewritten, c_babel_table, c_babel_table, c_rotation, c_rotation, c_items, c_glossary,
+            c_lang_option, c_ienc, c_xspace, c_package_zoo, c_shared_options,
+            c_file_rewritten, c_file_rewritten, c_babel_table, c_babel_table, c_rotation, c_rotation, c_items, c_glossary,
             c_glossary, c_flows, c_unknowns, c_option_flag, c_option_flag,
             c_modparms, c_recovery]
 
@@ -418,7 +437,7 @@ def gen_lib_plan(rng, idx):
         b = base_opts(rng)
         po = dict(b)
         po.update(car.get('pol_opts', {}))
-        same = rng.random() < 0.6
+        same = rng.random() < 0.6 or car.get('same_base')
         qo = dict(b if same else base_opts(rng))
         qo.update(car.get('probe_opts', {}))
         pad = ''
@@ -623,7 +642,7 @@ def evaluate_lib(plan):
     probes.update({'pair:' + k: 1 for k in pairs})
     nt = digest if pairs else None
     return core.ok(digest, probes=probes, runs=runs, nontrivial=nt,
-                   pairs=sorted(pairs))
+                   fired=hist['fired'], pairs=sorted(pairs))
 
 
 def _short(res):
@@ -661,6 +680,10 @@ def gen_server_plan(rng, idx):
     if rng.random() < 0.2:
         files['sdefs.tex'] = {'text': '\\newcommand{\\srvmac}{qservz}\n'}
         argv += ['--define', 'sdefs.tex']
+    replace = rng.random() < 0.15
+    if replace:
+        files['srepl.txt'] = {'text': '# phrases\n\nso dass & sodass\n'}
+        argv += ['--replace', 'srepl.txt']
     if rng.random() < 0.25:
         # a trailing || stands for "and the placeholders of the language"
         argv += ['--single-letters', rng.choice(['A|a|I||', 'A|a|I', 'z.B.||'])]
@@ -752,6 +775,24 @@ def gen_server_plan(rng, idx):
     if rng.random() < 0.15 and len(out) > 2:
         i = rng.randrange(len(out) - 1)
         out[i], out[i + 1] = out[i + 1], out[i]          # out of order
+    # clients that keep their connection open: the next request of the same
+    # client travels on it if the server's response allowed that (HTTP/1.1
+    # with Content-Length); with an HTTP/1.0 server every request gets a
+    # connection of its own, whatever the client wishes
+    out = [copy.deepcopy(r) for r in out[:12]]
+    if replace:
+        # every request uses a phrase of the --replace file
+        for r in out:
+            for f in r['fields']:
+                if f[0] == 'text':
+                    f[1] += '\nEr sagt, so dass es geht.\n'
+    for i, r in enumerate(out):
+        if i and rng.random() < 0.6:
+            r['keep'] = True
+            if out[i - 1].get('client', 0) == r.get('client', 0):
+                # ... and says so in the request before (the header is part of
+                # that request, also when it is replayed alone)
+                out[i - 1]['conn'] = 'keep-alive'
     peer = {'flag_regex': docgen.WORD_RE, 'flag_limit': 6,
             'nonascii': True, 'http': http}
     return {'system': 'server', 'kind': 'shell', 'argv': argv, 'files': files,
@@ -815,7 +856,7 @@ def evaluate_server(plan):
             fstate = dict(fstate)
             fstate.update(reqs[i]['files'])
         r = {k: v for k, v in reqs[i].items()
-             if k not in ('role', 'carrier', 'dup_of', 'files')}
+             if k not in ('role', 'carrier', 'dup_of', 'files', 'keep')}
         key = json.dumps([r, sorted(fstate.items(), key=lambda kv: kv[0])
                           if any_files else None], sort_keys=True)
         if key not in cache:
